@@ -129,6 +129,39 @@ def _override_family(prog, fi) -> bool:
     return False
 
 
+def _meant_to_matter(ctx, q, f, p) -> str:
+    """evidence that the parameter carries a user's choice: it is documented in the docstring, or some call in the package passes
+    a non-constant value for it"""
+    import re
+    doc = ast.get_docstring(f.node) or ''
+    if re.search(r'(^|\n)\s*' + re.escape(p) + r'\s*(\(|:)', doc):
+        return 'documented in the docstring'
+    cache = getattr(ctx, '_passers', None)
+    if cache is None:
+        cache = {}
+        for cq in ctx.prog.functions:
+            if cq.startswith(SKIP):
+                continue
+            r = ctx.dep.result(cq)
+            if r is None:
+                continue
+            for c in r.calls:
+                for g in c.callees:
+                    gi = ctx.prog.functions.get(g)
+                    if gi is None or any(k in ('*', '**') for k, _ in c.args):
+                        continue
+                    for name, (expr, _) in bound_args(ctx.prog, g, c).items():
+                        if expr is not None and not isinstance(expr, ast.Constant):
+                            cache.setdefault((g, name), cq)
+        ctx._passers = cache
+    if (q, p) in cache:
+        return f'passed by {cache[(q, p)]}'
+    loads = [n for n in ast.walk(f.node) if isinstance(n, ast.Name) and n.id == p and isinstance(n.ctx, ast.Load)]
+    if loads:
+        return f'read at line {loads[0].lineno}, but everything computed from it is discarded'
+    return ''
+
+
 def par_live(ctx, obs, prefixes: Sequence[str], rule='PAR-live') -> int:
     prog = ctx.prog
     exc = {(x['function'], x['param']): x['reason'] for x in load_exceptions().get('par_live', [])}
@@ -175,8 +208,13 @@ def par_live(ctx, obs, prefixes: Sequence[str], rule='PAR-live') -> int:
             if fam:
                 obs.ok(rule, q, con, 'signature fixed by the overridden interface', where(prog, f, f.node))
                 continue
-            obs.bad(rule, q, con, f'no returned value, mutation, call argument, call guard or raise of {q} depends on `{p}`: the '
-                    f'option is accepted and ignored', where(prog, f, f.node))
+            why = _meant_to_matter(ctx, q, f, p)
+            if why:
+                obs.bad(rule, q, con, f'no returned value, mutation, call argument, call guard or raise of {q} depends on `{p}` '
+                        f'({why}): the option is accepted and ignored', where(prog, f, f.node))
+            else:
+                obs.unk(rule, q, con, f'`{p}` is unused, but it is neither documented nor passed by any caller: an unused '
+                        f'parameter alone breaks nothing', where(prog, f, f.node))
     return n
 
 
